@@ -79,3 +79,15 @@ CHECKS["C04"] = {
     "assumptions": ["a replica's outcome is observed through its own notificator under the entry's notification id"],
     "min": {"any": {"restores_checked": 5000, "cuts_on_empty_index": 20}},
 }
+
+CHECKS["C06"] = {
+    "pkg": "./c06", "run": "^TestC06$", "level": "exploration",
+    "technique": "runtime monitor: differential execution of storage/wal badgerWAL against etcd/raft MemoryStorage after every call, with reopen and several groups in one database",
+    "level_text": "Differential monitor: seeded legal call sequences (appends incl. conflicting overwrites, hard states, received snapshots inside and beyond the log with and without trailing entries, local snapshot+compaction, reopen with cold cache or closed database, DeleteGroup + re-create, 1-4 groups interleaved incl. uuid.Nil and adjacent ids) are applied to the Badger store and to MemoryStorage; after every call FirstIndex, LastIndex, Term over [first-2,last+2], Entries under several size limits, Snapshot and InitialState are compared, for the acted-on group and for the others.",
+    "level_note": "Only call sequences raft may legally issue; Badger itself is trusted (SyncWrites off in the harness, process-crash durability is C03).",
+    "shards": {"quick": 8, "thorough": 16},
+    "timeout": {"quick": 600, "thorough": 3000},
+    "rule": "case c = 10..40 calls over 1..4 groups in one shared database; non-trivial = >=3 Saves and >=1 reopen; distinct = digest of the call list",
+    "assumptions": ["etcd/raft MemoryStorage is the reference semantics of the storage contract", "Save(hs, ents, snap) corresponds to ApplySnapshot; Append; SetHardState"],
+    "min": {"any": {"comparisons": 3000, "snapshot_installs": 100, "reopens": 100}},
+}
